@@ -303,6 +303,16 @@ func (d *Dialer) DialContext(ctx context.Context, urlStr string, requestHeader h
 		}
 	}()
 
+	// A proxy dialer may return the connection without the deadline set by
+	// netDialWithDeadline: the SOCKS5 dialer clears it when it is done.
+	if proxyURL != nil {
+		if deadline, ok := ctx.Deadline(); ok {
+			if err := netConn.SetDeadline(deadline); err != nil {
+				return nil, nil, err
+			}
+		}
+	}
+
 	// Do TLS handshake over established connection if a proxy exists.
 	if proxyURL != nil && u.Scheme == "https" {
 
